@@ -476,6 +476,24 @@ func (gb *gcpBalancer) bindSubConn(bindKey string, sc balancer.SubConn) {
 	gb.scRefs[sc].affinityIncr()
 }
 
+// bindSubConnRef binds the given affinity key to the current SubConn of the
+// subConnRef. The SubConn is read under the same lock as the binding is made,
+// so a connection refresh completing concurrently cannot make the key point to
+// the retired SubConn (and get dropped).
+func (gb *gcpBalancer) bindSubConnRef(bindKey string, ref *subConnRef) {
+	gb.mu.Lock()
+	defer gb.mu.Unlock()
+	sc := ref.subConn
+	if _, found := gb.scRefs[sc]; !found {
+		// The SubConn is no longer in the pool (it was shut down).
+		return
+	}
+	if _, ok := gb.affinityMap[bindKey]; !ok {
+		gb.affinityMap[bindKey] = sc
+	}
+	gb.scRefs[sc].affinityIncr()
+}
+
 // unbindSubConn removes the existing binding associated with the key.
 func (gb *gcpBalancer) unbindSubConn(boundKey string) {
 	gb.mu.Lock()
